@@ -2,6 +2,8 @@
 import Verif.Common.Proto
 import Verif.C16.Model
 import Verif.C16.Parent
+import Verif.C16.Eq
+import Verif.C16.Fields
 open Lean Verif.Proto Verif.C16
 
 namespace Verif.C16.Driver
@@ -119,6 +121,39 @@ def parentsOfDict (d : D) : Json :=
      | none => Json.null)
   | .error _ => Json.null
 
+def eqErrTag : EqErr → String
+  | .attributeError => "AttributeError"
+  | .unmodelled => "unmodelled"
+
+def jEq (r : Except EqErr Bool) : Json :=
+  match r with
+  | .ok b => jOk (Json.bool b)
+  | .error e => jErr (eqErrTag e)
+
+/-- `is_head()` answers: true / false / null (indeterminate) or the name of the exception -/
+def jHead (r : Except EqErr (Option Bool)) : Json :=
+  match r with
+  | .ok (some b) => Json.bool b
+  | .ok none => Json.null
+  | .error e => Json.str (eqErrTag e)
+
+def fieldNames (j : Json) : Except String (Option (List String)) :=
+  match j.getObjVal? "fields" with
+  | .ok Json.null => pure none
+  | .ok v => do
+    let a ← v.getArr?
+    pure (some (← a.toList.mapM (fun x => x.getStr?)))
+  | .error _ => pure none
+
+/-- `to_dict(fields=names)` and `from_dict` of it -/
+def fieldKeys (t : Node) (names : Option (List String)) : List (String × Json) :=
+  match names with
+  | none => []
+  | some ns =>
+    match fieldsOf ns with
+    | none => [("dict_f", jErr "ValueError"), ("fd_f", jErr "ValueError")]
+    | some f => [("dict_f", jOk (jD (toDictF f t))), ("fd_f", jRes (fromDict (toDictF f t)))]
+
 def handle (j : Json) : Except String Json := do
   let op ← getStr j "op"
   match op with
@@ -128,14 +163,17 @@ def handle (j : Json) : Except String Json := do
     let udf := toUdf false ind t
     let udx := toUdf true ind t
     let d := toDict t
-    pure (Json.mkObj [
+    pure (Json.mkObj ([
       ("udf", cps udf), ("udx", cps udx),
       ("p_udf", jRes (fromString udf)), ("p_udx", jRes (fromString udx)),
       ("dict", jD d), ("fd", jRes (fromDict d)),
       ("par_udf", parentsOfText udf), ("par_udx", parentsOfText udx), ("par_fd", parentsOfDict d),
       ("terminals", jList jNode (terminals t)),
       ("preterminals", jList jNode (preterminals t)),
-      ("internals", jList jNode (internals t))])
+      ("internals", jList jNode (internals t)),
+      ("heads", jList jHead (heads none t)),
+      ("eq_self", jEq (derivEq t t)), ("eq_erased", jEq (derivEq t (eraseHT t)))]
+      ++ fieldKeys t (← fieldNames j)))
   | "text" =>
     let s ← getCps j "s"
     pure (Json.mkObj [("scan", jList jEv (scan (s.drop 1))), ("parse", jRes (fromString s)),
@@ -143,6 +181,11 @@ def handle (j : Json) : Except String Json := do
   | "dict" =>
     let d ← ofD (← j.getObjVal? "d")
     pure (Json.mkObj [("fd", jRes (fromDict d)), ("par_fd", parentsOfDict d)])
+  | "eq" =>
+    let a ← ofNode (← j.getObjVal? "a")
+    let b ← ofNode (← j.getObjVal? "b")
+    pure (Json.mkObj [("eq", jEq (derivEq a b)), ("eq_rev", jEq (derivEq b a)),
+                      ("heads_a", jList jHead (heads none a)), ("heads_b", jList jHead (heads none b))])
   | _ => throw s!"bad op {op}"
 
 end Verif.C16.Driver
